@@ -37,7 +37,7 @@ def main():
     demo = os.path.join(d, 'demo.py')
     res = dict(seed=os.path.basename(d), property=meta['property'], checks={}, at=time.strftime('%F %T'))
     name = os.path.basename(d)
-    wt = '/repo' if inplace else '/tmp/seedcheck/' + name
+    wt = '/repo' if inplace else '/tmp/seedcheck/%s.%d' % (name, os.getpid())
     env = dict(os.environ)
     try:
         if not inplace:
